@@ -459,15 +459,12 @@ func TestC11(t *testing.T) {
 	}
 
 	// (a) bounded exhaustive per position
-	L := pick(3, 4)
+	L := pick(3, 5)
 	idx := 0
 	for _, p := range c11Positions() {
 		l := L
-		if p.names && ev.Thorough() {
-			l = 5
-		}
 		if p.single {
-			l = pick(2, 3)
+			l = pick(2, 4)
 		}
 		strs := c11Strings(l)
 		chunk := 400
@@ -489,7 +486,7 @@ func TestC11(t *testing.T) {
 			}
 		}
 	}
-	col.Exhaustive(fmt.Sprintf("every string of length <= %d (name positions <= %d in the thorough tier; the three single-valued meta attributes <= %d) over {a, Z, 1, ., -, _, /, \", *, &, {, }, space} in each of 22 grammar positions, 400 candidates per configuration on separate keys", L, map[bool]int{true: 5, false: L}[ev.Thorough()], pick(2, 3)))
+	col.Exhaustive(fmt.Sprintf("every string of length <= %d (the three single-valued meta attributes <= %d) over {a, Z, 1, ., -, _, /, \", *, &, {, }, space} in each of 22 grammar positions, 400 candidates per configuration on separate keys", L, pick(2, 4)))
 
 	// (c) node kinds, call and tag shapes, scope keywords, creation-method rules, todo exemption
 	for i, r := range c11RawCases() {
@@ -500,7 +497,7 @@ func TestC11(t *testing.T) {
 	col.Exhaustive(fmt.Sprintf("%d hand-enumerated node-kind / shape / keyword / creation-rule / todo-exemption documents", len(c11RawCases())))
 
 	// (b) valid forms from the documented grammar with up to two character edits
-	setRapidChecks(pick(40, 400))
+	setRapidChecks(pick(150, 1500))
 	positions := c11Positions()
 	rapid.Check(t, func(rt *rapid.T) {
 		p := positions[rapid.IntRange(0, len(positions)-1).Draw(rt, "position")]
@@ -522,7 +519,7 @@ func TestC11(t *testing.T) {
 	})
 
 	// (d) several independent violations on different keys in one run, on generated configurations
-	setRapidChecks(pick(40, 400))
+	setRapidChecks(pick(150, 1500))
 	opts := gen.All()
 	opts.Unicode = false
 	rapid.Check(t, func(rt *rapid.T) {
